@@ -164,7 +164,7 @@ func TestFieldMaskMarshal(t *testing.T) {
 			}
 			return out
 		},
-		Quick: 20000, Thorough: 300000,
+		Quick: 50000, Thorough: 300000,
 	})
 }
 
@@ -270,7 +270,7 @@ func TestFieldMaskParse(t *testing.T) {
 			}
 			return []string{"other"}
 		},
-		Quick: 15000, Thorough: 200000,
+		Quick: 40000, Thorough: 200000,
 	})
 }
 
@@ -502,7 +502,7 @@ func TestWrappers(t *testing.T) {
 			}
 			return out
 		},
-		Quick: 15000, Thorough: 200000,
+		Quick: 40000, Thorough: 200000,
 	})
 }
 
@@ -896,7 +896,7 @@ func TestStructValue(t *testing.T) {
 			}
 			return out
 		},
-		Quick: 15000, Thorough: 250000,
+		Quick: 40000, Thorough: 250000,
 	})
 }
 
